@@ -573,7 +573,7 @@ TRUSTED_BASE = [
     'Lean 4.33 kernel (lake build; leanchecker in the thorough tier)',
     'axioms propext, Classical.choice, Quot.sound only (audited per theorem with #print axioms)',
     'the Go->Lean translator /verif/translator (T-gen) for utils/coin.go, types/bandwidth.go, types/status*.go, x/*/types/keys.go, fact tables',
-    'the harness /verif/harness (handler-mode tx atomicity re-implementation), the comparer /verif/tools/compare.py',
+    'the harness /verif/harness (handler-mode re-implementation of tx atomicity, cross-checked in the thorough tier against signed transactions through the real DeliverTx and ante handler: tools/txmode.py), the comparer /verif/tools/compare.py',
     'hand-written models of dependencies: cosmossdk.io/math Int/LegacyDec, sdk.Coins, x/bank send/mint, x/distribution fee sweep and community pool, x/params Subspace.Update/Modified, cachekv snapshot iterators, PrefixEndBytes, Go time.Format (Hinnant civil-from-days), signature verification as an oracle bit',
     'modelled rather than verified: all hub keeper/handler/hook/genesis/query code is modelled by hand (lean/Hub/Model) and tied by the correspondence check on seeded histories',
     'the loader of implementation states (lean/Hub/Model/Load.lean) and the monitor loop (hubmodel --implmon); the per-property projections and failing-input rules (tools/propdefs.py, section_relevant / concrete_failure in check.py, round-trip analysis in tools/compare.py)',
